@@ -219,7 +219,7 @@ func (h *H) Opt(r, v int64) { simrt.Emit(EvOpt, int64(h.c.Idx), r, v) }
 // Upd performs a management operation from inside a rule.
 func (h *H) Upd(r int64) {
 	pl := h.plan(r)
-	if pl.Upd < 0 || h.sc.DoMgmt == nil {
+	if pl.Upd < 0 || h.sc.DoMgmt == nil || simrt.CallNY(hUpdOnce, int64(pl.Upd), 0, 0) != 1 {
 		return
 	}
 	simrt.Emit(EvUpdIn, int64(h.c.Idx), r, int64(pl.Upd))
@@ -231,6 +231,7 @@ func (h *H) Data() map[string]interface{} {
 	c := h.c
 	d := map[string]interface{}{}
 	d["H"] = h
+	c.mu.Lock()
 	c.Req = &Req{ID: int64(c.Idx)*10 + 3, Sl: []int64{1, 2, 3}, In: &In{h}}
 	c.Resp = &Resp{}
 	d["Req"] = c.Req
@@ -239,6 +240,7 @@ func (h *H) Data() map[string]interface{} {
 		c.Tag = &engine.Stag{}
 		d["Tag"] = c.Tag
 	}
+	c.mu.Unlock()
 	if c.HasOpt {
 		d["Opt"] = &OptObj{ID: c.Req.ID}
 	}
